@@ -9,7 +9,7 @@ names under two bounds and dyn coercion without a visible impl must be rejected;
 from common import *
 import famcheck, fam_c17
 
-LEVEL = "translation_validation"
+LEVEL = "model_checking"
 
 
 def run(tier, rep):
@@ -43,7 +43,11 @@ def run(tier, rep):
     rep.coverage["overlapping_inherent_impls_compared"] = compared
     # ---- Resolve.tla: the resolution rules as a model, every (configuration, call form) replayed through the compiler
     import resolve
-    resolve.run(rep, tier)
+    rst = resolve.run(rep, tier)
+    # every program below was put through the real compiler and its verdict / printed lines compared with what the model says
+    # (GomlSem.tla for the call-form families, Resolve.tla for the (configuration, form) table): counted from this run
+    rep.coverage["traces_validated_against_impl"] = (counts.get("agree", 0) + counts.get("differ", 0) + counts.get("rejected", 0)
+                                                     + compared + rst["accepting_compared"] + rst["refusals_compared"])
     rep.assumptions += famcheck.STD_ASSUMPTIONS
     if counts.get("agree", 0) < 12:
         raise ToolError("vacuity: fewer than 12 call-form programs compared")
